@@ -159,7 +159,7 @@ class Sched:
     def me(self):
         return self.idents[threading.get_ident()]
 
-    def run(self, fns, join_timeout=6.0):
+    def run(self, fns, join_timeout=4.0):
         """fns: one callable per thread.  -> True when every thread ran to its end
         (a case takes ~50 ms; join_timeout only matters when a thread blocks outside the scheduler's control,
         e.g. on a lock that is not the proxied guard attribute: then the case is reported as stuck)"""
@@ -202,10 +202,15 @@ class Sched:
         else:
             self.sems[first].release()
         signalled = self.done.acquire(timeout=join_timeout)
+        if not signalled:
+            # a thread blocks outside the scheduler's control: give up, wake everybody (each raises Stuck at its
+            # next yield point, which also unwinds `with` blocks and so frees whoever waits on a real lock)
+            self.stuck = True
+            self._abort()
         for th in threads:
-            th.join(join_timeout if signalled else 0.2)
-        ok = (not self.stuck) and all(not th.is_alive() for th in threads)
-        if not ok:
+            th.join(join_timeout if signalled else 1.0)
+        ok = signalled and (not self.stuck) and all(not th.is_alive() for th in threads)
+        if not ok and not self.stuck:
             self.stuck = True
             self._abort()
         return ok
